@@ -577,3 +577,147 @@ Qed.
 Theorem commit_in_order c msgs k sched s :
   fixed c = true -> run c (init msgs k) sched = Some s -> exists rest, msgs = commits s ++ rest.
 Proof. intros Hf HR. destruct (InvO_run _ _ _ _ _ Hf HR) as [_ HO]. eexists. exact HO. Qed.
+
+(* ---- dispatch order ---- *)
+
+(* does the action run TryToReplaceLoop? *)
+Definition replaces (s : st) (a : act) : bool :=
+  match a with
+  | AExt => true
+  | ALoop l _ => match nth_error (loops s) l with
+                 | Some lp => match l_pc lp with PRun _ (_ :: _) => true | _ => false end
+                 | None => false
+                 end
+  | _ => false
+  end.
+(* the current loop has stored readingMessages=false and has not yet called the handler *)
+Definition cur_in_window (s : st) : bool :=
+  match bheld (nth_error (loops s) (cur s)) with [] => false | _ => true end.
+Definition calm_step (s : st) (a : act) : bool := negb (replaces s a && cur_in_window s).
+Definition calm (c : cfg) (s : st) (sched : list act) : bool := all_steps calm_step c s sched.
+
+Definition BInv (s : st) : Prop :=
+  commits s = map fst (log s) ++ bheld (nth_error (loops s) (cur s)) /\
+  forall i lp, nth_error (loops s) i = Some lp -> i <> cur s -> bheld (Some lp) = [].
+
+Lemma BInv_try_replace s : cur_in_window s = false -> BInv s -> BInv (try_replace s).
+Proof.
+  intros Hw [HB1 HB2]. destruct (try_replace_cases s) as [->|(lc & Hn & Hr & ->)]; [split; auto|].
+  unfold cur_in_window in Hw. rewrite Hn in *.
+  assert (Hb : bheld (Some lc) = []) by (destruct (bheld (Some lc)); auto; discriminate).
+  split; cbn.
+  - rewrite nth_new_cur. cbn. now rewrite Hb in HB1.
+  - intros i lp Hi Hne.
+    rewrite nth_error_app1 in Hi.
+    2:{ rewrite length_upd. apply nth_error_lt in Hi. rewrite app_length, length_upd in Hi. cbn in Hi. lia. }
+    destruct (Nat.eq_dec (cur s) i) as [<-|Hne2].
+    + rewrite nth_error_upd_same in Hi by (eapply nth_error_lt; eauto). injection Hi as <-. exact Hb.
+    + rewrite nth_error_upd_other in Hi by auto. eauto.
+Qed.
+
+Lemma BInv_upd s l lp x cm lg :
+  BInv s -> nth_error (loops s) l = Some lp -> bheld (Some x) = [] ->
+  cm = map fst lg ++ (if Nat.eqb l (cur s) then [] else bheld (nth_error (loops s) (cur s))) ->
+  BInv (mkSt (queue s) (prod s) (ext s) (closed s) (cur s) (upd l x (loops s)) cm lg).
+Proof.
+  intros [HB1 HB2] Hn Hx Hcm. split; cbn.
+  - destruct (Nat.eqb l (cur s)) eqn:E.
+    + apply Nat.eqb_eq in E. subst l. rewrite nth_error_upd_same by (eapply nth_error_lt; eauto). now rewrite Hx.
+    + apply Nat.eqb_neq in E. now rewrite nth_error_upd_other.
+  - intros i lq Hi Hne. destruct (Nat.eq_dec l i) as [->|Hne2].
+    + rewrite nth_error_upd_same in Hi by (eapply nth_error_lt; eauto). now injection Hi as <-.
+    + rewrite nth_error_upd_other in Hi by auto. eauto.
+Qed.
+
+(* a loop whose pc carries no committed message can change pc without affecting B *)
+Lemma BInv_set_pc s l lp p :
+  BInv s -> nth_error (loops s) l = Some lp -> bheld (Some lp) = [] -> (forall m, p <> PBusy m) ->
+  BInv (set_pc s l lp p).
+Proof.
+  intros HB Hn Hlp Hp. unfold set_pc, with_loops. eapply BInv_upd; eauto.
+  - cbn. destruct p; auto. exfalso. eapply Hp; eauto.
+  - destruct HB as [HB1 _]. rewrite HB1. f_equal. destruct (Nat.eqb l (cur s)) eqn:E; auto.
+    apply Nat.eqb_eq in E. subst l. now rewrite Hn.
+Qed.
+
+Lemma window_set_pc s l lp p :
+  nth_error (loops s) l = Some lp -> cur_in_window s = false -> (forall m, p <> PBusy m) ->
+  cur_in_window (set_pc s l lp p) = false.
+Proof.
+  intros Hn Hw Hp. unfold cur_in_window in *. cbn.
+  destruct (Nat.eq_dec l (cur s)) as [->|Hne].
+  - rewrite nth_error_upd_same by (eapply nth_error_lt; eauto). cbn. destruct p; auto. exfalso. eapply Hp; eauto.
+  - now rewrite nth_error_upd_other.
+Qed.
+
+Lemma BInv_step c s a s' :
+  fixed c = true -> Inv c s -> BInv s -> calm_step s a = true -> step c s a = Some s' -> BInv s'.
+Proof.
+  intros Hf HI HB HQ HS. apply step_Step in HS. unfold calm_step in HQ.
+  destruct HS as [m r Hp Hl | Hc | k He | l lp Hn Hpc Hd | l lp Hn Hpc Hcl | l lp m q Hn Hpc Hq
+                 | l lp m a Hn Hpc | l lp m a Hn Hpc | l lp m a Hn Hpc | l lp m ops a Hn Hpc
+                 | l lp m r ops a Hn Hpc | l lp m r ops a Hn Hpc Hdl | l lp a Hn Hpc].
+  - exact HB.
+  - exact HB.
+  - cbn in HQ. apply BInv_try_replace; [|exact HB]. unfold cur_in_window in *. cbn. now destruct (bheld _).
+  - apply BInv_set_pc; auto; [cbn; now rewrite Hpc | discriminate].
+  - apply BInv_set_pc; auto; [cbn; now rewrite Hpc | discriminate].
+  - apply (BInv_set_pc (st_q s q)); auto; [cbn; now rewrite Hpc | discriminate].
+  - (* commit *)
+    assert (l = cur s) by (eapply fixed_consumer; eauto). subst l.
+    destruct HB as [HB1 HB2]. split; cbn.
+    + rewrite nth_error_upd_same by (eapply nth_error_lt; eauto). cbn.
+      rewrite HB1, Hn. cbn. rewrite Hpc. now rewrite app_nil_r.
+    + intros i lq Hi Hne. rewrite nth_error_upd_other in Hi by auto. eauto.
+  - (* dispatch *)
+    destruct HB as [HB1 HB2].
+    assert (l = cur s).
+    { destruct (Nat.eq_dec l (cur s)); auto. specialize (HB2 _ _ Hn n). cbn in HB2. rewrite Hpc in HB2. discriminate. }
+    subst l. split; cbn.
+    + rewrite nth_error_upd_same by (eapply nth_error_lt; eauto). cbn.
+      rewrite HB1, Hn. cbn. rewrite Hpc. rewrite map_app. cbn. now rewrite app_nil_r.
+    + intros i lq Hi Hne. rewrite nth_error_upd_other in Hi by auto. eauto.
+  - eapply BInv_upd; eauto. destruct HB as [HB1 _]. rewrite HB1. f_equal.
+    destruct (Nat.eqb l (cur s)) eqn:E; auto. apply Nat.eqb_eq in E. subst l. rewrite Hn. cbn. now rewrite Hpc.
+  - cbn in HQ. rewrite Hn, Hpc in HQ. cbn in HQ. apply negb_true_iff in HQ.
+    apply BInv_try_replace.
+    + apply window_set_pc; auto. discriminate.
+    + apply BInv_set_pc; auto; [cbn; now rewrite Hpc | discriminate].
+  - cbn in HQ. rewrite Hn, Hpc in HQ. cbn in HQ. apply negb_true_iff in HQ.
+    apply BInv_try_replace.
+    + apply window_set_pc; auto. discriminate.
+    + apply BInv_set_pc; auto; [cbn; now rewrite Hpc | discriminate].
+  - apply BInv_set_pc; auto; [cbn; now rewrite Hpc | discriminate].
+  - apply BInv_set_pc; auto; [cbn; now rewrite Hpc | destruct (fixed c && l_done lp); discriminate].
+Qed.
+
+Lemma BInv_init msgs k : BInv (init msgs k).
+Proof. split; cbn; auto. intros [|[|i]] lp H Hne; cbn in *; try discriminate. congruence. Qed.
+
+(* in the repaired code, when no replacement request races with the hand-over of a message to its handler,
+   messages are dispatched in arrival order: every schedule, every handler program (blocking or not) *)
+Theorem in_order c msgs k sched s :
+  fixed c = true -> run c (init msgs k) sched = Some s -> calm c (init msgs k) sched = true ->
+  exists rest, msgs = map fst (log s) ++ rest.
+Proof.
+  intros Hf HR HC.
+  assert (H : (Inv c s /\ OInv msgs s) /\ BInv s).
+  { apply (run_invariant_cond c calm_step (fun s => (Inv c s /\ OInv msgs s) /\ BInv s)) with (sched := sched) (s := init msgs k); auto.
+    - intros s0 a s' [[HI HO] HB] HQ HS. split; [split|].
+      + eapply Inv_step; eauto.
+      + eapply OInv_step; eauto.
+      + eapply BInv_step; eauto.
+    - split; [split|]; [apply Inv_init | apply OInv_init | apply BInv_init]. }
+  destruct H as [[_ HO] [HB _]]. unfold OInv in HO. rewrite HB in HO. rewrite <- !app_assoc in HO. eexists. exact HO.
+Qed.
+
+(* complete run, connection open: the dispatch log IS the arrival sequence *)
+Theorem in_order_complete c msgs k sched s :
+  fixed c = true -> run c (init msgs k) sched = Some s -> calm c (init msgs k) sched = true ->
+  terminal c s -> closed s = false -> map fst (log s) = msgs.
+Proof.
+  intros Hf HR HC HT Hop. destruct (in_order _ _ _ _ _ Hf HR HC) as [rest E].
+  pose proof (exactly_once _ _ _ _ _ HR HT Hop) as HP.
+  apply Permutation_length in HP. rewrite E in HP at 1. rewrite app_length in HP.
+  destruct rest; [now rewrite app_nil_r in E|]. cbn in HP. lia.
+Qed.
